@@ -386,6 +386,36 @@ func c14CheckLoad(ctx *vfCtx, c c14LoadCase) {
 	if ctx.Failed() {
 		return
 	}
+	// the same loader used again for the same answer (a caller that keeps one loader per room): every
+	// input is classified as before - a loader carries nothing over from one call to the next
+	if c.Split == 0 {
+		var again []EventLoadResult
+		var aerr error
+		if c14Catch(ctx, "C14/load-and-verify/loader-reused", lists, false, func() {
+			again, aerr = loader.LoadAndVerify(context.Background(), raws, order, vfUserIDForSender)
+		}) {
+			return
+		}
+		ctx.Class("loader-reused")
+		if (aerr == nil) != (err == nil) || len(again) != len(results) {
+			ctx.Fail("C14/load-and-verify/loader-reused/differs", "first call: %d results, error %v; second call on the same loader: %d results, error %v", len(results), err, len(again), aerr)
+			return
+		}
+		for i := range results {
+			a, b := results[i], again[i]
+			aid, bid := "", ""
+			if a.Event != nil {
+				aid = a.Event.EventID()
+			}
+			if b.Event != nil {
+				bid = b.Event.EventID()
+			}
+			if aid != bid || (a.Error == nil) != (b.Error == nil) || fmt.Sprintf("%T", a.Error) != fmt.Sprintf("%T", b.Error) {
+				ctx.Fail("C14/load-and-verify/loader-reused/differs", "result %d: first call %q / %v, second call on the same loader %q / %v", i, aid, a.Error, bid, b.Error)
+				return
+			}
+		}
+	}
 	// C11: the loaded events come back in the ordering asked for - each after the ancestors (prev /
 	// auth events) it names among the loaded events - whether or not they passed the checks
 	{
